@@ -1,2 +1,3 @@
 pub mod frames;
 pub mod strat;
+pub mod tls;
